@@ -1024,6 +1024,28 @@ impl W5Check {
                     }
                 }
             }
+            "C10" if rng.chance(1, 4) => {
+                // reader provenance: thread 0 holds a reader on a region of thread 1 while thread 1 frees
+                // that region's extent (relocation, or a removal that must be refused), flushes and
+                // allocates + writes a new region that would land on a freed extent
+                cfg.vec_kinds = vec![9; nthreads];
+                let r = rng.below(2);
+                threads[0].push(TOp::ReaderOpen { of: 1, r });
+                for _ in 0..rng.range(2, 4) {
+                    threads[0].push(TOp::ReaderCheck);
+                }
+                threads[0].push(TOp::ReaderClose);
+                tag = tag.wrapping_add(2);
+                threads[1].push(if rng.chance(1, 2) { TOp::Remove { r } } else { TOp::Append { r, len: *rng.pick(&[5000usize, 9000, 20000]), tag } });
+                threads[1].push(TOp::Flush);
+                threads[1].push(TOp::Create { r: 2 });
+                threads[1].push(TOp::Append { r: 2, len: *rng.pick(&[100usize, 4000, 8000]), tag: tag.wrapping_add(2) });
+                threads[1].push(TOp::Flush);
+                for (t, th) in threads.iter_mut().enumerate().skip(2) {
+                    th.push(TOp::Create { r: 2 });
+                    th.push(TOp::Append { r: 2, len: 3000, tag: tag.wrapping_add(4 + t as u64) });
+                }
+            }
             "C10" => {
                 // every thread works on its own regions (and maybe its own vector); one may hold a reader
                 cfg.vec_kinds = (0..nthreads).map(|_| if rng.chance(1, 3) { rng.below(4) } else { 9 }).collect();
